@@ -197,6 +197,12 @@ func (c *ExprCtx) place(addr ssa.Value) string {
 	switch x := addr.(type) {
 	case *ssa.FieldAddr:
 		base := c.Expr(x.X)
+		if al, ok := x.X.(*ssa.Alloc); ok && al.Parent() != nil {
+			// a struct variable assigned exactly once as a whole (e.g. a call result kept in a local)
+			if sts := storesTo(al.Parent(), al); len(sts) == 1 && !escapesToClosureWrite(al) {
+				base = c.Expr(sts[0].Val)
+			}
+		}
 		if strings.HasPrefix(base, "&") {
 			base = base[1:]
 		}
